@@ -183,8 +183,33 @@ def a_object_factory(s, n):
         call(f.value.create, s.v20.Identity, name='f', identity_class='individual', external_references=[{'source_name': 'm', 'external_id': 'x'}])
 
 
+def a_refused_registrations(s, n):
+    """Registrations that have to be refused (a name taken in the other category, a type name breaking the naming rules while an
+    extension is to be registered along with it): a refusal must leave nothing behind for the calls that follow."""
+    from stix2.properties import StringProperty
+    props = [('value', StringProperty())]
+    ext = 'extension-definition--' + C.mkuuid(n % 3, 'noise-refused')
+    objs21 = sorted(s.registry.STIX2_OBJ_MAPS['2.1']['objects'])
+    obss21 = sorted(s.registry.STIX2_OBJ_MAPS['2.1']['observables'])
+    customs = [t for t in objs21 if t.startswith('x-')]
+    k = n % 6
+    if k == 0:
+        call(lambda: s.v21.CustomObservable(objs21[n // 6 % len(objs21)], props)(type('NoiseObs', (object,), {})))
+    elif k == 1:
+        call(lambda: s.v21.CustomObject(obss21[n // 6 % len(obss21)], props)(type('NoiseObj', (object,), {})))
+    elif k == 2 and customs:
+        call(lambda: s.v21.CustomObservable(customs[n // 6 % len(customs)], props)(type('NoiseObs', (object,), {})))
+    elif k == 3:
+        call(lambda: s.v21.CustomObject(['X-Noise', '9x', 'x_noise_thing', 'xn'][n // 6 % 4], props, extension_name=ext)(type('NoiseObj', (object,), {})))
+    elif k == 4:
+        call(lambda: s.v21.CustomObservable(['X-Noise', 'x_noise_thing', 'xn'][n // 6 % 3], props, extension_name=ext)(type('NoiseObs', (object,), {})))
+    else:
+        objs20 = sorted(s.registry.STIX2_OBJ_MAPS['2.0']['objects'])
+        call(lambda: s.v20.CustomObservable(objs20[n // 6 % len(objs20)], props)(type('NoiseObs', (object,), {})))
+
+
 ACTIVITIES = [a_version_sco, a_version_sdo, a_markings, a_parse_unknown, a_uuid_kinds, a_memory_store, a_composite_env, a_bundle_serialize,
-              a_deepcopy_compare, a_observables, a_timestamps, a_patterns, a_invalid_inputs, a_object_factory]
+              a_deepcopy_compare, a_observables, a_timestamps, a_patterns, a_invalid_inputs, a_object_factory, a_refused_registrations]
 
 
 def run(world, k):
